@@ -1,0 +1,14 @@
+//go:build verif
+// +build verif
+
+package tag
+
+// VC08TagMap returns a copy of the map form of the tag set (verification hook for C08/C06:
+// the Set keeps its map private, the checks compare it with the map the text denotes).
+func VC08TagMap(s Set) map[string]string {
+	res := make(map[string]string, len(s.tmap))
+	for k, v := range s.tmap {
+		res[k] = v
+	}
+	return res
+}
